@@ -161,7 +161,7 @@ def _c20_cover_behaviours(ctx, name, base_id):
 def check_C20(ctx):
     _java_opts()
     binary = ctx.build("vals")
-    nsim = 96 if ctx.quick else 1200
+    nsim = 96 if ctx.quick else 720
     chunks = 4 if ctx.quick else 12
     per = (nsim + chunks - 1) // chunks
 
